@@ -24,12 +24,24 @@ Init == l = 1 /\ st = <<>> /\ devs = {} /\ taint = ""
 ExpectedOut(e) == IF e.a = "report" THEN [s \in DOMAIN st |-> ReportOut(st[s].x, e.t)] ELSE {}
 Logged(e)   == IF e.a = "report" THEN e.out ELSE {}
 
+\* how one reception report block relates to the stream's state: "ok" = as the property says; "asfound" = not so, but
+\* the stream is in the region of the recorded finding C06.IntervalBeyondHistory (the report interval is longer than
+\* the history, and shorter than the 16-bit loop of the code) and the block is EXACTLY what the as-found ring model
+\* of ReceiverReport.tla computes; "bad" = neither
+AsFoundTag == "C06.IntervalBeyondHistory"
+Mode(e, i) ==
+  LET b == e.out[i]  x == st[b.s].x IN
+  IF ReportAccept(x, e.t, b) THEN "ok"
+  ELSE IF AsFoundTag \in Known /\ IntervalBeyondHistory(x) /\ Expected(x) < M /\ AsFoundAccept(x, e.t, b) THEN "asfound"
+  ELSE "bad"
+AsFoundStreams(e) == IF e.a = "report" THEN {e.out[i].s : i \in {j \in DOMAIN e.out : Mode(e, j) = "asfound"}} ELSE {}
+
 \* exactly one block per bound stream, none for any other SSRC, each block acceptable (sets keyed by SSRC)
 Accept(e) ==
   IF e.a = "report"
   THEN /\ \A i, j \in DOMAIN e.out : e.out[i].s = e.out[j].s => i = j
        /\ {e.out[i].s : i \in DOMAIN e.out} = DOMAIN st
-       /\ \A i \in DOMAIN e.out : ReportAccept(st[e.out[i].s].x, e.t, e.out[i])
+       /\ \A i \in DOMAIN e.out : Mode(e, i) # "bad"
   ELSE TRUE
 
 StepState(e) ==
@@ -40,12 +52,16 @@ StepState(e) ==
        THEN Put(e.s, [c |-> st[e.s].c, x |-> RtpStep(st[e.s].c, st[e.s].x, e.w, e.ts, e.t)])
   ELSE IF e.a = "sr" /\ e.s \in DOMAIN st
        THEN Put(e.s, [c |-> st[e.s].c, x |-> SrStep(st[e.s].x, <<e.ntp[2], e.ntp[3]>>, e.t)])
-  ELSE IF e.a = "report" THEN [s \in DOMAIN st |-> [c |-> st[s].c, x |-> ReportStep(st[s].x)]]
+  ELSE IF e.a = "report"
+       THEN LET af == AsFoundStreams(e) IN
+            [s \in DOMAIN st |-> [c |-> st[s].c, x |-> IF s \in af THEN AsFoundStep(st[s].x) ELSE ReportStep(st[s].x)]]
   ELSE st
 
 NewDevs(e) ==
   (IF e.a = "rtp" /\ e.s \in DOMAIN st /\ LateBeyondHistory(st[e.s].x, e.w) THEN {"C06.LateBeyondHistory"} ELSE {})
-  \cup (IF e.a = "report" /\ \E s \in DOMAIN st : IntervalBeyondHistory(st[s].x) THEN {"C06.IntervalBeyondHistory"} ELSE {})
+  \* beyond the 16-bit loop of the code the as-found model does not apply: such a trace is abandoned (tainted) as before
+  \cup (IF e.a = "report" /\ \E s \in DOMAIN st : IntervalBeyondHistory(st[s].x) /\ Expected(st[s].x) >= M
+        THEN {AsFoundTag} ELSE {})
 
 Next ==
   /\ l <= Len(Trace)
@@ -55,6 +71,7 @@ Next ==
      ELSE IF taint # "" THEN l' = l + 1 /\ UNCHANGED <<st, devs, taint>>
      ELSE IF Accept(e) THEN
         /\ st' = StepState(e) /\ devs' = devs \cup NewDevs(e) /\ l' = l + 1 /\ UNCHANGED taint
+        /\ (AsFoundStreams(e) # {} => PrintT(<<"KNOWNDEV", l, AsFoundTag>>))
      ELSE LET k == (devs \cup NewDevs(e)) \cap Known IN
         IF k # {} THEN /\ PrintT(<<"KNOWNDEV", l, CHOOSE t \in k : TRUE>>)
                        /\ taint' = (CHOOSE t \in k : TRUE) /\ l' = l + 1 /\ UNCHANGED <<st, devs>>
